@@ -134,3 +134,54 @@ Proof.
   change temp_max with (Z.ones 26). rewrite Z.land_ones by lia.
   rewrite Z.mod_add by lia. symmetry. apply Z.mod_small. lia.
 Qed.
+
+(* ---- the regenerated bi.wrap ------------------------------------------------------------------ *)
+Require Import SC3.lib.PyNum SC3.gen.Gen_builtins SC3.proofs.C15_int SC3.model.NodeIdGen.
+
+(* sc3.base.builtins.wrap on ints IS wrap_int, for all arguments with lo <= hi *)
+Lemma py_wrap_int x lo hi : lo <= hi -> py_wrap (I x) (I lo) (I hi) = I (wrap_int x lo hi).
+Proof.
+  intros H. unfold py_wrap. cbn [is_int andb nsub nadd lift2 pint].
+  rewrite py_mod_int by lia. cbn [nadd lift2]. reflexivity.
+Qed.
+
+Lemma nalloc_py_eq s : init_temp s <= temp_max -> nalloc_py s = Some (nalloc s).
+Proof. intros H. unfold nalloc_py, nalloc. rewrite py_wrap_int by exact H. reflexivity. Qed.
+
+Lemma nalloc_py_many_eq k : forall s, nwf s -> nalloc_py_many s k = Some (nalloc_many s k).
+Proof.
+  induction k as [|k IH]; intros s Hs; [reflexivity|].
+  change (nalloc_py_many s (S k)) with
+    (match nalloc_py s with
+     | Some (s1, x) => match nalloc_py_many s1 k with Some (s2, xs) => Some (s2, cons x xs) | None => None end
+     | None => None end).
+  change (nalloc_many s (S k)) with
+    (let '(s1, x) := nalloc s in let '(s2, xs) := nalloc_many s1 k in (s2, x :: xs)).
+  rewrite nalloc_py_eq by (destruct Hs as (_ & ? & ? & _); lia).
+  pose proof (nalloc_spec s Hs) as H1. destruct (nalloc s) as [s1 x]. destruct H1 as (Hs1 & _).
+  rewrite (IH s1 Hs1). destruct (nalloc_many s1 k) as [s2 xs]. reflexivity.
+Qed.
+
+Lemma nodeid_py_total s k : nwf s -> exists s' ids, nalloc_py_many s k = Some (s', ids) /\ length ids = k /\ nwf s'.
+Proof.
+  intros Hs. rewrite nalloc_py_many_eq by auto. pose proof (nalloc_many_spec k s Hs) as H.
+  destruct (nalloc_many s k) as [s' ids]. destruct H as (? & ? & _). eauto.
+Qed.
+
+Lemma nodeid_py_window_distinct s k s' ids i j : nwf s -> nalloc_py_many s k = Some (s', ids) ->
+  (i < j < k)%nat -> Z.of_nat j - Z.of_nat i < temp_max - init_temp s + 1 ->
+  nth i ids 0 <> nth j ids 0.
+Proof.
+  intros Hs E. rewrite nalloc_py_many_eq in E by auto. inversion E as [E'].
+  eapply nodeid_window_distinct_proof; eauto.
+Qed.
+
+Lemma nodeid_py_in_client_range s k s' ids i : nwf s -> nalloc_py_many s k = Some (s', ids) -> (i < k)%nat ->
+  Z.shiftl (user s) 26 <= nth i ids 0 < Z.shiftl (user s + 1) 26 /\
+  nth i ids 0 = Z.land (nth i ids 0) temp_max + Z.shiftl (user s) 26 /\
+  init_temp s <= nth i ids 0 - Z.shiftl (user s) 26 <= temp_max /\
+  nwf s'.
+Proof.
+  intros Hs E. rewrite nalloc_py_many_eq in E by auto. inversion E as [E'].
+  eapply nodeid_in_client_range_proof; eauto.
+Qed.
